@@ -6,11 +6,15 @@
 package main
 
 import (
+	"bytes"
 	"encoding/base64"
 	"errors"
+	"flag"
 	"fmt"
 	"io"
 	"io/fs"
+	"os"
+	"os/exec"
 	"sort"
 	"strings"
 	"sync"
@@ -29,6 +33,8 @@ import (
 	"hop.computer/hop/zzverif/seqx"
 	"hop.computer/hop/zzverif/vk"
 )
+
+var e3Bin = flag.String("bin-e3", "", "the concurrent-logins harness (c05x), built with the grant map rewritten for the scheduler")
 
 var K [4]keys.DHPublicKey // K[1], K[2] client keys; K[3] another user's key
 
@@ -393,6 +399,20 @@ func grantsBFS(r *vk.Run, enable bool) {
 
 func main() {
 	r := vk.New("C05", "model_checking")
+	if r.ReplayFile != "" && *e3Bin != "" {
+		// schedules of the concurrent part are replayed by the build they were found on
+		if b, err := os.ReadFile(r.ReplayFile); err == nil && bytes.Contains(b, []byte(`"choices"`)) {
+			cmd := exec.Command(*e3Bin, "-replay", r.ReplayFile, "-tier", r.Tier)
+			cmd.Stdout, cmd.Stderr = os.Stdout, os.Stderr
+			if err := cmd.Run(); err != nil {
+				if ee, ok := err.(*exec.ExitError); ok {
+					os.Exit(ee.ExitCode())
+				}
+				os.Exit(2)
+			}
+			os.Exit(0)
+		}
+	}
 	for i := 1; i <= 3; i++ {
 		leafs[i] = leafFor(K[i])
 	}
@@ -401,5 +421,8 @@ func main() {
 	grantsBFS(r, true)
 	grantsBFS(r, false)
 	r.Assume("the composition of the two authorization steps mirrors hopSession.checkAuthorization (the end-to-end slice through a real session is part of the C07 dispatch check)")
+	if *e3Bin != "" {
+		r.RunChild("concurrent", *e3Bin)
+	}
 	r.Finish()
 }
